@@ -285,3 +285,23 @@ def struct_chain(env, ny, relief):
     env.eq("C07", "tube von Mises stresses of the mirror image are the same per element (reversed order)", g2.get(v2, "vonmises"), g1.get(v1, "vonmises")[::-1])
     env.eq("C07", "structural mass is unchanged by reflection", g2.get(v2, "structural_mass"), g1.get(v1, "structural_mass"))
     env.eq("C07", "structural cg is reflected", g2.get(v2, "cg_location"), g1.get(v1, "cg_location") * SM)
+
+
+@job("c07.monotonic", ("C07", "C04"), cfgs=[dict(nyh=2), dict(nyh=3), dict(nyh=4, _tier=T)])
+def monotonic(env, nyh):
+    """the monotonicity constraint of a spanwise distribution (positive where the quantity grows from root towards a tip): for a
+    full-span surface the constraint vector of the mirrored distribution is the mirror image, and the left half of it is the
+    constraint vector of the symmetric half model"""
+    ny = 2 * nyh - 1
+    sf = surface(name="wing", nx=2, ny=ny, symmetry=False)
+    sh = surface(name="wing", nx=2, ny=nyh, symmetry=True, side="left")
+    fac = lambda s: (lambda: cls("geometry.monotonic_constraint.MonotonicConstraint")(surface=s, var_name="chord"))
+    hf = env.comp("full", fac(sf))
+    hf2 = env.comp("full.mirrored", fac(sf))
+    hh = env.comp("half", fac(sh))
+    x = env.var("chord", (ny,))
+    cf = hf.compute(dict(chord=x))["monotonic_chord"]
+    cm = hf2.compute(dict(chord=x[::-1]))["monotonic_chord"]
+    env.eq("C07", "monotonicity constraint of the mirrored distribution is the mirror image", cm, cf[::-1])
+    ch = hh.compute(dict(chord=x[:nyh]))["monotonic_chord"]
+    env.eq("C07,C04", "monotonicity constraint of the half model == left half of the full-span constraint", ch, cf[:nyh - 1])
